@@ -155,10 +155,44 @@ def run_thorough(ctx):
     _recurrence(ctx, poles=4)
 
 
+def _tier_selection(ctx):
+    """The one-component (isotropic) coefficient tier keeps only the x column, so it may be chosen only for poles whose
+    four per-axis parameters are all uniform: Pole.is_isotropic must say exactly that."""
+    import itertools as _it
+    from fractions import Fraction as Fr
+
+    ix = ctx.index
+    P = ix.cls("fdtdx.dispersion.Pole")
+    m = P.lookup_method("is_isotropic")
+    ctx.unit(m.where())
+    it = ctx.fresh_interp()
+    names = ("omega_0_axes", "gamma_axes", "coupling_sq_axes", "coupling_edot_axes")
+    bad = []
+    n = 0
+    for pattern in _it.product((True, False), repeat=4):
+        for oriented in (False, True):
+            vals = {nm: ((Fr(2), Fr(2), Fr(2)) if uni else (Fr(2), Fr(2), Fr(3))) for nm, uni in zip(names, pattern)}
+            o = Obj(P, dict(vals, orientation=((1, 0, 0), (0, 1, 0), (0, 0, 1)) if oriented else None), "pole")
+            got = it.getattr(o, "is_isotropic")
+            want = all(pattern) and not oriented
+            n += 1
+            if bool(got) is not want:
+                bad.append((dict(zip(names, pattern)), oriented, got))
+    ctx.ob("R36.4", "fdtdx.dispersion.Pole.is_isotropic", not bad and n == 32, "a pole counts as isotropic exactly when it is not oriented and its resonance, damping, field coupling and dE/dt coupling are each the same on the three axes (32 combinations) — only then may the one-component coefficient tier, which keeps the x column, stand for all three axes", bad[:3], "all four uniform and not oriented")
+    # the tier choice itself consults that predicate
+    import ast
+
+    f = ix.function("fdtdx.materials.compute_allowed_dispersive_coefficients")
+    src = ast.unparse(f.node)
+    guards = [st for st in ast.walk(f.node) if isinstance(st, ast.If) and "num_components == 1" in ast.unparse(st.test) and "has_isotropic_dispersion" in ast.unparse(st.test) and any(isinstance(x, ast.Raise) for x in ast.walk(st))]
+    ctx.ob("R36.4", "compute_allowed_dispersive_coefficients:tier-guard", len(guards) >= 1, "keeping a single coefficient column is refused for a material whose dispersion is not isotropic", len(guards), ">= 1 raising guard")
+
+
 def run(ctx):
     _recurrence(ctx)
     _zero_coefficients(ctx)
     _acceptance(ctx)
+    _tier_selection(ctx)
     ctx.require_count("C36", len(ctx.obligations), 33)
     ctx.trusted_base += [
         "Levi-Civita oracle of the discrete curl (C01)",
